@@ -171,6 +171,7 @@ def grid(tier):
                 yield {"strings": spellings, "section": sec, "mn": mn, "null": null}
 
 
+DESCRS = ["d%d", "d%d", "Well number %d {S}", "Latitude %d {F}", "%d {E}", "x%d {F10.4} | assoc", "{S} %d", "string %d", "float %d", "(int) %d", "%d 12,5", "%d 1e5"]
 NULL_EQUAL = {
     "-999.25": ["-999.25", "-999.2500", "-999,25", "-99925e-2", "-9.9925E2", "-999.26", "-999.24", "999.25", "-999.25x"],
     "-9999": ["-9999", "-9999.0", "-9999,00", "-9.999e3", "-9998", "-99990e-1", "9999"],
@@ -248,7 +249,8 @@ def run_case(case, ctx):
         elif swapped:
             lines.append("%s.  d%d : %s" % (mn, i, s))
         else:
-            lines.append("%s.  %s : d%d" % (mn, s, i))
+            # the description of the same line is free text: format words, braces, numbers - it says nothing about the value
+            lines.append("%s.  %s : %s" % (mn, s, DESCRS[(i + len(s)) % len(DESCRS)] % i))
         used.append((mn, s))
     head = ["~Version", "VERS. %s : v" % vers, "WRAP. NO : w"]
     ctx.count("files_declaring_version_" + vers)
